@@ -106,10 +106,12 @@ def known_match(prop, facts, known):
 
 
 def write_evidence(prop, tier, seed, level, coverage, assumptions, wall_s, violations):
-    os.makedirs(os.path.join(VERIF, "evidence"), exist_ok=True)
+    # evidence describes runs against /repo only; a seeded-change experiment (VERIF_REPO elsewhere) writes into its work dir
+    evdir = os.path.join(VERIF, "evidence") if os.path.realpath(REPO) == "/repo" else os.path.join(WORK, "evidence")
+    os.makedirs(evdir, exist_ok=True)
     ev = {"property_id": prop, "tier": tier, "seed": seed, "level": level, "coverage": coverage,
           "assumptions": assumptions, "wall_s": round(wall_s, 1), "violations": violations}
-    path = os.path.join(VERIF, "evidence", prop + ".json")
+    path = os.path.join(evdir, prop + ".json")
     json.dump(ev, open(path + ".tmp", "w"), indent=1)
     os.replace(path + ".tmp", path)
     return path
